@@ -47,6 +47,18 @@ CLAIMED = {
    ref="§4 C04",
    note=TB + "positivity is NOT shown (DESIGN §6); PT-TEBD norm / Gibbs normalisation are handled under C10 / C11; "
         "scipy expm/quad outputs are data whose trace/Hermiticity preservation is checked per run, not proved."),
+ "C05": dict(
+   technique="Lean 4 proof (conjugation algebra on the path sum; gauge invariance by induction) + IsDiagonalisation predicate evaluated in Lean on the Bath's real output",
+   text=("Proved for all n and memory settings: rotating initial state, propagators and the diagonalising transform by an "
+         "invertible table W rotates every TEMPO state by W (covariance); any two diagonalisations of the same coupling operator "
+         "(permutations, phases, rotations inside degenerate eigenspaces) give the same states (diag_choice_indep via the "
+         "gauge-invariance lemma pathState_gauge_table). Both take the Bath's transform to be a diagonalisation; that predicate "
+         "(unitary, real eigenvalues, reproduces the operator) is evaluated exactly in Lean on the real Bath output for Hermitian "
+         "operators of dimension 2..5 with repeated/zero eigenvalues and Haar/structured unitaries on every run, and rotated "
+         "vs unrotated real Tempo runs are compared with the model."),
+   ref="§4 C05",
+   note=TB + "LAPACK eigh correctness is checked per run, not proved; PT-TEMPO and mean-field TEMPO inherit covariance through "
+        "C02/C09 (shared kernels), no separate theorem."),
  "C06": dict(
    technique="Lean 4 proof (well-definedness of the reduced tables + congruence of the path sum) + exact correspondence of degeneracy maps and reduced tables",
    text=("Proved for every dimension, number of steps, memory setting and coincidence pattern (none to total): reading the "
